@@ -118,8 +118,13 @@ def drive_trig(rec):
             cr2.unit_cell_atoms()
             cr2.unit_cell_molecules()
             cr2.symmetry_unique_molecules()
+        import numpy as np
+        held_cell = cr2.unit_cell                   # a cell object another crystal (or the caller) may still be using
+        direct0 = np.array(held_cell.direct, dtype=float, copy=True)
         cr2.choose_trigonal_lattice(rec["target"])
         t["after"] = state_rec(cr2, n2, u)
+        if not np.array_equal(np.asarray(held_cell.direct, dtype=float), direct0):
+            t["after"]["exc"] = "SharedCellChanged"
         p1 = cr2.as_P1()
         t["after"]["p1_natoms"] = int(len(p1.asymmetric_unit))
         t["after"]["p1_dens"] = dens_int(p1)
